@@ -444,9 +444,10 @@ class ExcRec:
 
 
 class Summary:
-    __slots__ = ('ret', 'excs', 'facts', 'pure', 'alts', 'hv')
+    __slots__ = ('ret', 'excs', 'facts', 'pure', 'alts', 'hv', 'narrow')
 
     def __init__(self):
+        self.narrow = {}       # parameter -> length its token list is known to have whenever the function returns normally
         self.hv = {}           # fields of identified objects on normal return (flow sensitive part of the heap)
         self.ret = BOT
         self.excs = {}
@@ -456,7 +457,7 @@ class Summary:
                                # with different facts: the caller continues with one disjunct per alternative
 
     def snapshot(self):
-        return (self.ret, frozenset(self.excs), self.facts, self.pure, self.alts, frozenset(self.hv.items()))
+        return (self.ret, frozenset(self.excs), self.facts, self.pure, self.alts, frozenset(self.hv.items()), frozenset(self.narrow.items()))
 
 
 class Scope:
@@ -646,9 +647,10 @@ def object_ids(val, acc, _depth=0):
 
 
 class Args:
-    __slots__ = ('pos', 'star', 'kw', 'kwstar', 'marker', 'syms')
+    __slots__ = ('pos', 'star', 'kw', 'kwstar', 'marker', 'syms', 'names')
 
     def __init__(self, pos=None, star=None, kw=None, kwstar=None, marker=None, syms=None):
+        self.names = {}           # position / keyword -> local name the argument was read from
         self.pos = pos or []
         self.star = star          # AVal of the elements of a *arg of unknown length
         self.kw = kw or {}
@@ -715,6 +717,7 @@ class Interp:
         self.summary_depth = 0
         self.unroll_depth = 0
         self.fn_attrs = {}
+        self._rebinds = {}
         self.ident_counter = 0
         self.partition_unknown = False
         self._mro_cache, self._fm_cache, self._sub_cache = {}, {}, {}
@@ -3328,9 +3331,15 @@ class Interp:
         def flip(r):
             return (r[2], r[3], r[0], r[1]) if neg else r
         # len(x) ==/!= n
-        if isinstance(op, (ast.Eq, ast.NotEq)) and isinstance(left, ast.Call) and dotted(left.func) == 'len' and len(left.args) == 1:
+        if isinstance(op, (ast.Eq, ast.NotEq, ast.In, ast.NotIn)) and isinstance(left, ast.Call) and dotted(left.func) == 'len' and len(left.args) == 1:
             rv = self.eval(fr, right)
-            n = self.const_int(rv)
+            if isinstance(op, (ast.In, ast.NotIn)):
+                members = self.const_members(rv)
+                n = None
+                if members is not None and len(members) == 1 and next(iter(members))[1] == 'int':
+                    n = next(iter(members))[2]
+            else:
+                n = self.const_int(rv)
             xv = self.eval(fr, left.args[0])
             if n is not None and all(a[0] in ('toks', 'seq', 'kdict') for a in xv):
                 yes, no = set(), set()
@@ -3834,6 +3843,8 @@ class Interp:
                     else:
                         if s_ is not None:
                             args.syms[len(args.pos)] = s_
+                        if isinstance(a, ast.Name):
+                            args.names[len(args.pos)] = a.id
                         args.pos.append(v)
         for k in node.keywords:
             v = self.eval(fr, k.value)
@@ -3852,6 +3863,8 @@ class Interp:
                 else:
                     if s_ is not None:
                         args.syms[k.arg] = s_
+                    if isinstance(k.value, ast.Name):
+                        args.names[k.arg] = k.value.id
                     args.kw[k.arg] = v
         return alts
 
@@ -4160,6 +4173,13 @@ class Interp:
             return BOT
         if summ.hv:
             fr.store.vars.update(summ.hv)
+        if summ.narrow and args.names:
+            pnames = [p_.arg for p_ in fnnode.args.posonlyargs + fnnode.args.args]
+            shift = 1 if self_val is not None else 0
+            for where, vname in args.names.items():
+                pn = where if isinstance(where, str) else (pnames[where + shift] if where + shift < len(pnames) else None)
+                if pn in summ.narrow:
+                    self.refine_len(fr, fr.store, vname, summ.narrow[pn], True)
         new_facts = summ.facts
         if okfact is not None and summ.pure:
             new_facts = new_facts | {okfact}
@@ -4171,6 +4191,17 @@ class Interp:
         if new_facts:
             fr.store.facts = fr.store.facts | new_facts
         return map_tags(summ.ret, f)
+
+    def rebinds(self, fnnode):
+        """names a function assigns (a parameter that is rebound no longer describes the caller's argument)"""
+        r = self._rebinds.get(id(fnnode))
+        if r is None:
+            r = set()
+            for n in ast.walk(fnnode):
+                if isinstance(n, ast.Name) and isinstance(n.ctx, (ast.Store, ast.Del)):
+                    r.add(n.id)
+            self._rebinds[id(fnnode)] = r
+        return r
 
     def reachable_hv(self, store, values):
         """the flow-sensitive attributes of the identified objects reachable from the given values"""
@@ -4276,6 +4307,21 @@ class Interp:
             groups[d] = (v, s.facts) if g is None else (join(g[0], v), g[1] & s.facts)
         new.ret = rets
         new.hv = hv
+        # a token-list parameter that every normal return leaves with one known length (the function checks the arity)
+        ends = [s_ for (s_, _) in out.ret] + list(out.next)
+        if ends and not isinstance(fnnode, ast.Lambda):
+            for pname, pval in bound.items():
+                if any(a[0] == 'toks' and a[2] is None for a in pval):
+                    ns = set()
+                    for s_ in ends:
+                        cur = s_.vars.get(pname, BOT)
+                        tk = [a for a in cur if a[0] == 'toks']
+                        if not tk or any(a[2] is None for a in tk):
+                            ns.add(None)
+                        else:
+                            ns |= {a[2] for a in tk}
+                    if len(ns) == 1 and None not in ns and pname not in self.rebinds(fnnode):
+                        new.narrow[pname] = next(iter(ns))
         if facts is not None:
             new.facts = frozenset(f for f in facts if self.fact_tags(f) <= tin) - facts_in
             if 1 < len(groups) <= MAX_DISJUNCTS and None not in groups:
